@@ -1,6 +1,7 @@
 package core
 
 import (
+	"reflect"
 	"runtime/debug"
 	"sync"
 	"syscall"
@@ -76,6 +77,7 @@ type Sched struct {
 	st        [MaxTasks]int8
 	blockedOn [MaxTasks]uintptr
 	blockSite [MaxTasks]int
+	lastRun   [MaxTasks]int64
 	rfd, wfd  [MaxTasks + 1]int
 	pipes     bool
 	cur       int
@@ -215,6 +217,7 @@ func (s *Sched) BeginRun(n int, cfg StratCfg) {
 		s.st[i] = stNone
 		s.blockedOn[i] = 0
 		s.StepsTask[i] = 0
+		s.lastRun[i] = 0
 		s.panicked[i] = false
 		s.panics[i] = ""
 	}
@@ -336,10 +339,26 @@ func (s *Sched) pick(exclude int) int {
 	return c[T.Uint(uint32(k))]
 }
 
+// pickFair chooses, among ready tasks other than exclude, the one that ran least recently.
+//
+//go:norace
+func (s *Sched) pickFair(exclude int) int {
+	best := -1
+	for i := 0; i < s.n; i++ {
+		if i != exclude && s.st[i] == stReady {
+			if best < 0 || s.lastRun[i] < s.lastRun[best] {
+				best = i
+			}
+		}
+	}
+	return best
+}
+
 // switchTo hands the baton to t and parks the caller until it is scheduled again.
 //
 //go:norace
 func (s *Sched) switchTo(self, t int) {
+	s.lastRun[self] = s.Steps
 	s.Switches++
 	s.cur = t
 	s.st[t] = stRunning
@@ -400,9 +419,16 @@ func Yield(site int) {
 		s.finish(self, VHang, site)
 	}
 	if loop {
-		// spin-wait site: fairness requires letting someone else run.
-		t := s.pick(self)
+		// spin-wait site: fairness requires letting someone else run, and the someone must
+		// eventually be the task the spinner is waiting for: take the ready task that has been
+		// off the processor longest (round-robin), whatever the strategy's priorities say.
+		t := s.pickFair(self)
 		if t >= 0 {
+			if s.Strat == StratPCT {
+				// a task that yields voluntarily drops to the lowest priority (PCT's rule)
+				s.prio[self] = s.lowPrio
+				s.lowPrio--
+			}
 			s.SpinSwitches++
 			s.rec(EvSpin, self, site)
 			s.st[self] = stReady
@@ -477,7 +503,15 @@ func lockAddr(p any) uintptr {
 	case **sync.Mutex:
 		return uintptr(unsafe.Pointer(*v))
 	}
-	// unknown locker: use the interface data word
+	// unknown locker (e.g. a struct that embeds a mutex, reached through a pointer variable):
+	// strip pointer-to-pointer levels so that the identity is the object, not the variable
+	rv := reflect.ValueOf(p)
+	for rv.Kind() == reflect.Ptr && !rv.IsNil() && rv.Elem().Kind() == reflect.Ptr {
+		rv = rv.Elem()
+	}
+	if rv.Kind() == reflect.Ptr {
+		return rv.Pointer()
+	}
 	return uintptr((*[2]unsafe.Pointer)(unsafe.Pointer(&p))[1])
 }
 
